@@ -28,6 +28,7 @@ sys.path.insert(0, os.path.join(ROOT, "lib"))
 import vf
 
 INST = os.path.join(HERE, "c16_inst.C")
+LIB = os.path.join(HERE, "c16_lib.C")          # the compiled sources of the library (Integer, Rational, ...): bodies of what the classes call
 
 # (display name, class name, leading template arguments as clang prints them)
 TARGETS = [
@@ -69,13 +70,20 @@ TARGETS = [
     ("StaticElement<Modular<double>>", "StaticElement", ["Givaro::Modular<double>"]),
 ]
 
+# classes that are described but carry NO verdict, with the reason; emitted into gen/Decide.v (sc_exceptions) so that the Coq statement
+# C16_decided_self_contained says what is decided and what is set aside
+NO_VERDICT = {
+    "StaticElement<Modular<double>>": "element wrapper whose domain is a documented class static (setDomain): not a domain object",
+    "GFqKronecker<TT,Ints>": "gfqkronecker.h does not compile in this tree (missing givzpz.h): described by a source scan only",
+}
+
 IGNORED_GLOBALS = {"cout", "cerr", "cin", "clog", "endl"}     # I/O streams are not domain state
 # documented process-wide state excluded by the property texts (C16: Rational::flags; C18: allocator free lists,
 # GMP random state).  They are still listed in the description, as `excluded`.
 # documented globals whose VALUE an operation may depend on (excluded by C16's text) -- a const operation WRITING one is still a
 # write to process-wide state (race for C18, history dependence for C16): only reads are excluded
 READ_EXCLUDED_GLOBALS = {"flags": "Rational::flags (documented global reduction switch: results may depend on it; writing it is not excluded)"}
-EXCLUDED_GLOBALS = {"TabFree": "GivMMFreeList free lists (process-wide allocator state, excluded by C18/C16 texts)",
+EXCLUDED_GLOBALS = {"tabphy": "GivMMFreeList free lists (process-wide allocator state, excluded by C18/C16 texts)", "TabFree": "GivMMFreeList free lists (process-wide allocator state, excluded by C18/C16 texts)",
                     "logalloc": "allocator statistics of the free lists (process-wide allocator state)",
                     "tablog": "allocator statistics of the free lists (process-wide allocator state)",
                     "physalloc": "allocator statistics of the free lists (process-wide allocator state)",
@@ -162,37 +170,51 @@ def split_params(ftype):
 # ------------------------------------------------------------------------------------------------ AST loading
 
 def ast_cache_key():
-    srcs = vf.repo_sources() + [INST, os.path.abspath(__file__)]
-    return vf.file_hash(srcs, "c16-objmodel-v13")
+    srcs = vf.repo_sources() + [INST, LIB, os.path.abspath(__file__)]
+    return vf.file_hash(srcs, "c16-objmodel-v14")
 
 
-def dump_ast():
-    """run clang, parse the concatenated JSON objects.  returns (objs, log)"""
-    cmd = ["clang++", "-std=gnu++11"] + vf.inc_flags() + ["-I" + HERE, "-DNDEBUG", "-DHAVE_CONFIG_H", "-D" + vf.GUARD,
-           "-fsyntax-only", "-Xclang", "-ast-dump=json", "-Xclang", "-ast-dump-filter=Givaro", INST]
+def _clang_dump(unit, prefix=""):
+    """one clang run; returns (list of JSON objects, error text or None).  `prefix` is put in front of every node address of the
+    dump, so that the ids of two translation units cannot collide"""
     import subprocess
-    dbg = os.environ.get("C16_AST_PICKLE")          # development aid only (never set by the checks)
-    if dbg and os.path.exists(dbg):
-        return pickle.load(open(dbg, "rb")), "from pickle"
+    cmd = ["clang++", "-std=gnu++11"] + vf.inc_flags() + ["-I" + HERE, "-DNDEBUG", "-DHAVE_CONFIG_H", "-D" + vf.GUARD,
+           "-fsyntax-only", "-Xclang", "-ast-dump=json", "-Xclang", "-ast-dump-filter=Givaro", unit]
     try:
         p = subprocess.run(cmd, stdout=subprocess.PIPE, stderr=subprocess.PIPE, universal_newlines=True, errors="replace", timeout=2400)
     except subprocess.TimeoutExpired:
-        return None, "clang on the instantiation unit: [timeout after 2400s]"
+        return None, "clang on %s: [timeout after 2400s]" % os.path.basename(unit)
     if p.returncode < 0:
-        return None, "clang on the instantiation unit: Killed by signal %d (memory / system limits)\n%s" % (-p.returncode, p.stderr[-1000:])
+        return None, "clang on %s: Killed by signal %d (memory / system limits)\n%s" % (os.path.basename(unit), -p.returncode, p.stderr[-1000:])
     if p.returncode != 0:
-        return None, "clang failed on the instantiation unit:\n" + p.stderr[-4000:]
-    s = p.stdout
+        return None, "clang failed on %s:\n%s" % (os.path.basename(unit), p.stderr[-4000:])
+    txt = p.stdout
+    if prefix:
+        txt = txt.replace('"0x', '"' + prefix + '0x')
     dec = json.JSONDecoder()
-    i, n, objs = 0, len(s), []
+    i, n, objs = 0, len(txt), []
     while i < n:
-        while i < n and s[i] in " \n\r\t":
+        while i < n and txt[i] in " \n\r\t":
             i += 1
         if i >= n:
             break
-        o, i = dec.raw_decode(s, i)
+        o, i = dec.raw_decode(txt, i)
         objs.append(o)
-    return objs, p.stderr[-2000:]
+    return objs, None
+
+
+def dump_ast():
+    """run clang on the instantiation unit and on the library unit, parse the concatenated JSON objects.  returns (objs, log)"""
+    dbg = os.environ.get("C16_AST_PICKLE")          # development aid only (never set by the checks)
+    if dbg and os.path.exists(dbg):
+        return pickle.load(open(dbg, "rb")), "from pickle"
+    objs, err = _clang_dump(INST)
+    if objs is None:
+        return None, err
+    lib, err = _clang_dump(LIB, "L")
+    if lib is None:
+        return None, err
+    return objs + lib, ""
 
 
 # ------------------------------------------------------------------------------------------------ index
@@ -221,6 +243,21 @@ class Index:
                 pc = n.get("parentDeclContextId")
                 if pc and pc in self.decl and i not in self.cls_of:
                     self.cls_of[i] = self.decl[pc]
+        # declarations of the first unit -> definitions in the library unit (ids differ between the two dumps): by owner, name, type
+        strip = lambda t: re.sub(r"\s*noexcept(\(.*\))?\s*$", "", t or "")
+        libdef = {}
+        for i, n in self.decl.items():
+            if str(i).startswith("L") and n.get("kind") in FUNC_KINDS and has_body(n):
+                own = self.cls_of.get(i) if n.get("kind") != "FunctionDecl" else None          # (friend functions are declared inside the class)
+                libdef.setdefault(((own or {}).get("name") or "", n.get("name"), norm(strip(qt(n)))), n)
+        self.linked_to_library = 0
+        for i, n in list(self.decl.items()):
+            if not str(i).startswith("L") and n.get("kind") in FUNC_KINDS and i not in self.defn and not has_body(n):
+                own = self.cls_of.get(i) if n.get("kind") != "FunctionDecl" else None
+                d2 = libdef.get(((own or {}).get("name") or "", n.get("name"), norm(strip(qt(n)))))
+                if d2 is not None:
+                    self.defn[i] = d2
+                    self.linked_to_library += 1
 
     def _walk(self, n, cls):
         k = n.get("kind")
@@ -512,6 +549,90 @@ def _callee_id(call):
     return None, None
 
 
+def callee_meta(call):
+    """(kind of callee expression, type of the receiver object or of the callee, name) of a call expression"""
+    s = kids(call)
+    cur = s[0] if s else None
+    for _ in range(8):
+        if cur is None:
+            break
+        k = cur.get("kind")
+        if k == "MemberExpr":
+            obj = kids(cur)
+            return {"how": "member", "rtype": qt(obj[0]) if obj else "", "name": cur.get("name"), "ftype": qt(cur)}
+        if k == "DeclRefExpr":
+            r = cur.get("referencedDecl", {})
+            rt = ""
+            if call.get("kind") == "CXXOperatorCallExpr" and r.get("kind") == "CXXMethodDecl" and len(s) >= 2:
+                rt = qt(s[1])
+            return {"how": "decl:" + str(r.get("kind")), "rtype": rt, "name": r.get("name"), "ftype": r.get("type", {}).get("qualType", "")}
+        if k in ("CXXDependentScopeMemberExpr", "UnresolvedLookupExpr", "UnresolvedMemberExpr", "DependentScopeDeclRefExpr", "CXXPseudoDestructorExpr"):
+            return {"how": "dependent" if k != "CXXPseudoDestructorExpr" else "pseudo-destructor", "rtype": "", "name": cur.get("member") or cur.get("name"), "ftype": ""}
+        ss = kids(cur)
+        cur = ss[0] if ss else None
+    return {"how": "?", "rtype": "", "name": None, "ftype": ""}
+
+
+# ---- explicit effect table for callees that have NO body in the dump.  Every entry says what the callee may touch; nothing in the table
+# touches an object other than its receiver / explicit operands, a stream operand, or the process-wide state named in the entry (which the
+# property texts exclude).  A callee that matches no entry is UNEXPLAINED (counted, listed, and a broken obligation in checks/C16.py).
+EFFECT_TABLE = [
+    ("std-container", "member functions / operators of std::vector, list, deque, basic_string, pair, map, iterators: act on their receiver only (the receiver access is classified by the const-ness of the member)",
+     lambda m: re.search(r"\bstd::(vector|list|deque|basic_string|string|pair|map|set|_List_|_Deque_|allocator|initializer_list|__cxx11|reverse_iterator|_Vector|_Bit|numeric_limits|char_traits|tuple|function)|__gnu_cxx::__normal_iterator|__normal_iterator|_List_iterator|_List_const_iterator|_Rb_tree", m["rtype"] + " " + (m["ftype"] if m["how"] != "member" or not m["rtype"] else "")) is not None
+               or (m["how"].startswith("decl:") and re.search(r"\b(basic_string|vector|allocator|__normal_iterator|_List_iterator|_List_const_iterator|list<|deque|pair<)", m["ftype"]) is not None and not re.search(r"stream", m["ftype"]))),
+    ("std-stream", "operator<< / operator>> and member functions of std streams: write / read the stream operand (I/O streams are not domain state)",
+     lambda m: re.search(r"basic_[io]*stream|basic_ios|ios_base|std::[io]stream|__ostream_type|__istream_type|stringstream|std::ws|_Setw|_Setprecision|std::endl|std::flush|setw|setprecision", m["rtype"] + " " + m["ftype"] + " " + str(m["name"])) is not None),
+    ("std-atomic", "std::atomic<T> members: atomic read-modify-write of their receiver",
+     lambda m: re.search(r"__atomic_base|std::atomic", m["rtype"] + " " + m["ftype"]) is not None),
+    ("libm / libc pure", "mathematical and utility functions of the C / C++ library without hidden state (fmod, floor, ceil, sqrt, pow, log, abs, min, max, swap, to_string, strlen, memcpy on explicit buffers, isdigit ...)",
+     lambda m: m["how"].startswith("decl:Function") and str(m["name"]) in LIBC_PURE),
+    ("libc time / random", "time(), gettimeofday(), getrusage(), clock(), rand(): process-wide clock / generator, used by timers and randomised operations only (excluded by the property text)",
+     lambda m: str(m["name"]) in ("time", "gettimeofday", "getrusage", "clock", "rand", "srand", "lrand48", "srand48", "random", "getpid")),
+    ("GMP C API", "mpz_* / mpq_* / mpf_* / mpn_* / gmp_*: operate on their explicit operands; gmp_randstate is the documented excluded random state; allocation goes through the memory manager (excluded)",
+     lambda m: re.match(r"^(__g?mp[zqfn]?_|mp[zqfn]_|gmp_|__gmp)", str(m["name"])) is not None),
+    ("allocation", "operator new / delete / malloc / free / the library's memory manager entry points: allocator state (excluded by the property texts)",
+     lambda m: str(m["name"]) in ("operator new", "operator delete", "operator new[]", "operator delete[]", "malloc", "free", "realloc", "calloc", "abort", "exit", "__assert_fail")),
+    ("RecInt value types", "arithmetic of RecInt::ruint<K> / rint<K> values (src/kernel/recint, not in the dump: its namespace is not Givaro): acts on its explicit operands; the headers are scanned on every run for function-local statics (recint_static_scan)",
+     lambda m: re.search(r"RecInt::|\bru?int<", m["rtype"] + " " + m["ftype"]) is not None),
+    ("gmpxx", "mpz_class / __gmp_expr of <gmpxx.h>: value types", lambda m: re.search(r"__gmp_expr|mpz_class|mpq_class", m["rtype"] + " " + m["ftype"]) is not None),
+    ("builtin", "compiler builtins", lambda m: str(m["name"]).startswith("__builtin")),
+    ("gmpxx random", "gmp_randclass of <gmpxx.h> (seed, get_z_range, ...): the GMP random state behind Integer::random / seeding (documented, excluded; callers are randomised operations)",
+     lambda m: "gmp_randclass" in m["rtype"] + " " + m["ftype"]),
+    ("std misc pure", "std::numeric_limits<T>::max()/min()/epsilon(), std::type_info::name(): constants of the implementation",
+     lambda m: (m["how"] == "decl:CXXMethodDecl" and str(m["name"]) in ("max", "min", "epsilon", "lowest", "infinity") and re.match(r"^[\w ]+\(\)( noexcept)?$", m["ftype"].strip()) is not None)
+               or "type_info" in m["rtype"]),
+    ("libc time", "timespec_get / clock_gettime: the clock (timers, seeds of randomised operations)", lambda m: str(m["name"]) in ("timespec_get", "clock_gettime", "localtime", "gmtime", "strftime")),
+    ("operand functor", "call through a function object / function pointer that is a PARAMETER or a local variable of the caller (a generator `g()` passed in): an operand",
+     lambda m: m["how"] in ("decl:ParmVarDecl", "decl:VarDecl")),
+]
+LIBC_PURE = set("fmod fmodf floor floorf ceil ceilf sqrt sqrtf pow powf log log2 log10 exp abs fabs fabsf labs llabs min max swap to_string strlen strcmp strncmp strcpy strncpy memcpy memset memmove "
+                "isdigit isspace isalpha isalnum toupper tolower atoi atol strtol strtoul strtod ldexp frexp round lround llround trunc rint nearbyint isnan isinf isfinite signbit copysign "
+                "move forward make_pair get begin end distance advance fill copy reverse sort accumulate find operator== operator!= operator< operator> operator<= operator>= operator+ operator- "
+                "addressof __addressof declval uninitialized_copy stoi stol stoul stoll stoull stod getline".split())
+
+
+def classify_unresolved(idx, cid, meta):
+    """category of a callee that has no body in the dump"""
+    d = idx.decl.get(cid) if cid else None
+    if meta.get("how") == "pseudo-destructor":
+        return "pseudo-destructor (scalar)"
+    if d is not None and (d.get("isImplicit") or d.get("explicitlyDefaulted") == "default"):
+        return "implicit / defaulted special member (memberwise)"
+    if d is not None and d.get("pure"):
+        return "pure virtual (interface declaration)"
+    for name, _, pred in EFFECT_TABLE:
+        try:
+            if pred(meta):
+                return name
+        except Exception:
+            pass
+    if d is not None:
+        return "DECLARED IN THE LIBRARY, NO BODY IN THE DUMP"
+    if meta.get("how") in ("dependent", "pseudo-destructor"):
+        return "dependent code (template pattern, not an instantiated body)" if meta["how"] == "dependent" else "pseudo-destructor (scalar)"
+    return "UNEXPLAINED"
+
+
 class FnInfo:
     """one analysed function body"""
 
@@ -525,6 +646,11 @@ class FnInfo:
         self.calls = []               # (callee id, receiver Path or None, name)
         self.unresolved_calls = 0
         self.aliases = {}
+        self.assigned_fed = set()     # ... and the written value is computed from a PARAMETER of this function (re-parameterisation, not a cache fill)
+        self.assigned = set()         # own members this body DEFINITELY writes: target of an assignment / ++ / --, receiver of operator= or of a
+                                      # size-changing container member (resize, allocate, copy, clear, push_back, ...), first argument of assign(...)
+        self.call_meta = {}           # index in self.calls -> what is known about the callee at the call site (for the classification of
+                                      # callees without a body: std::, GMP, libc, RecInt, ...)
         self._collect_locals(node)
         self._collect_aliases(node)
         ps, self.is_const = split_params(qt(node))
@@ -613,8 +739,34 @@ class FnInfo:
                 return          # immutable constant (Integer::zero, prime tables, ...)
             self.effects.append({"kind": "global_write" if not read else "global_read", "var": nm, "type": rt})
 
+    def _note_assigned(self, e, values=()):
+        """e is definitely written; `values` = the expressions the new value comes from (fed = one of them mentions a parameter)"""
+        p = access_path(e, self) if e is not None else None
+        if p is not None and p.root == "this" and p.members:
+            self.assigned.add(p.members[0])
+            if any(_mentions_any_param(v) for v in values if isinstance(v, dict)):
+                self.assigned_fed.add(p.members[0])
+
     def _visit(self, n, parent):
         k = n.get("kind")
+        ks_ = kids(n)
+        if k in ("BinaryOperator", "CompoundAssignOperator") and n.get("opcode") in ASSIGN_OPS and len(ks_) == 2:
+            self._note_assigned(ks_[0], ks_[1:])
+        elif k == "UnaryOperator" and n.get("opcode") in ("++", "--") and ks_:
+            self._note_assigned(ks_[0])
+        elif k == "CXXOperatorCallExpr" and len(ks_) >= 2 and _callee_name(ks_[0]) in ("operator=", "operator+=", "operator-=", "operator*=", "operator/=", "operator%=", "operator++", "operator--"):
+            self._note_assigned(ks_[1], ks_[2:])
+        elif k == "CXXOperatorCallExpr" and len(ks_) >= 3 and _callee_name(ks_[0]) == "operator>>":
+            self._note_assigned(ks_[2], ks_[1:2])          # stream >> member
+        elif k == "CXXMemberCallExpr" and ks_:
+            cn = _callee_name(ks_[0])
+            if cn in DEFINITE_WRITERS:
+                cid_, recv_ = _callee_id(n)
+                dcl_ = self.idx.decl.get(cid_)
+                if not (dcl_ is not None and split_params(qt(dcl_))[1]):          # (a const member of that name, e.g. a domain's element assign, writes nothing of its receiver)
+                    self._note_assigned(recv_, ks_[1:])
+            if cn in ("assign", "copy") and len(ks_) >= 3:
+                self._note_assigned(ks_[1], ks_[2:])          # F.assign(const_cast<Element&>(mOne), value)
         if k == "ParenExpr":
             for c in kids(n):          # the context of (e) is the context of e:  x ^= !(Table[i])  reads Table
                 self._visit(c, parent)
@@ -634,6 +786,7 @@ class FnInfo:
                 # a receiver that is a call result / a temporary / a conditional is an operand, not the implicit `this`
                 rp = Path("local", "<temporary>", [], False, False)
             self.calls.append((cid, rp, _callee_name(kids(n)[0]) if kids(n) else None, self._in_static_init > 0))
+            self.call_meta[len(self.calls) - 1] = callee_meta(n)
         if k in ("CXXConstructExpr", "CXXTemporaryObjectExpr"):
             # an object of a class of the library built here (a local domain, a temporary, a member / base initialiser): what ITS
             # constructor does to statics / globals happens inside this function too
@@ -691,6 +844,9 @@ class Analyzer:
         self.fn = {}            # id(node) -> FnInfo
         self.summ = {}          # function node id -> transitive effects
         self.stats = {"functions": 0, "calls_resolved": 0, "calls_unresolved": 0}
+        self.written_globals = None          # None: not computed (every global counts as written); build_descriptions computes it over all bodies
+        self.unresolved = {}          # category -> count (call sites in analysed bodies whose callee has no body in the dump)
+        self.unresolved_names = {}    # category -> {callee: count}
 
     def info(self, node):
         i = node["id"]
@@ -720,10 +876,18 @@ class Analyzer:
                         e["write"] = False
             effects.append(e)
         reads = set(fi.reads)
-        for cid, recv, cname, in_init in fi.calls:
+        for ci, (cid, recv, cname, in_init) in enumerate(fi.calls):
             b = self.idx.body(cid) if cid else None
             if b is None:
                 self.stats["calls_unresolved"] += 1
+                meta = fi.call_meta.get(ci) or {"how": "?", "rtype": "", "name": cname, "ftype": ""}
+                cat = classify_unresolved(self.idx, cid, meta)
+                self.unresolved[cat] = self.unresolved.get(cat, 0) + 1
+                nm = "%s%s" % ((re.sub(r"<.*", "", meta["rtype"].replace("const ", "").strip()) + "::") if meta.get("rtype") else "", meta.get("name") or cname)
+                if cat.startswith("DECLARED") or cat == "UNEXPLAINED":
+                    nm = "%s : %s" % (nm, (meta.get("ftype") or "").replace("<bound member function type>", "member"))
+                dd = self.unresolved_names.setdefault(cat, {})
+                dd[nm] = dd.get(nm, 0) + 1
                 continue
             self.stats["calls_resolved"] += 1
             s = self.summary(b, depth + 1, stack + (i,))
@@ -768,6 +932,23 @@ class Analyzer:
         res = {"effects": effects, "reads": reads}
         self.summ[i] = res
         return res
+
+    def definite_writes(self, node, depth=0, stack=()):
+        """own members a call of `node` definitely writes (itself or through members of the same object it calls)"""
+        i = node["id"]
+        if i in stack or depth > 6:
+            return set()
+        fi = self.info(node)
+        out = set(fi.assigned_fed)
+        if fi.assigned_fed:
+            out |= fi.assigned          # a member that takes new parameters: what it rewrites from them (derived values included) counts
+            for cid, recv, cname, in_init in fi.calls:
+                same = (recv is None and cid and self._is_method_of_same_object(cid)) or (recv is not None and recv.root == "this" and not recv.members)
+                if same:
+                    b = self.idx.body(cid)
+                    if b is not None:
+                        out |= self.info(b).assigned | self.definite_writes(b, depth + 1, stack + (i,))
+        return out
 
     def _is_method_of_same_object(self, cid):
         d = self.idx.decl.get(cid)
@@ -832,8 +1013,12 @@ def methods_of(idx, c):
             ACCESS[x["id"]] = acc
             out.append(x)
         elif k == "FunctionTemplateDecl":
-            for m in kids(x):
-                if m.get("kind") in FUNC_KINDS and has_body(m) and not _is_dependent(m):
+            fs = [m for m in kids(x) if m.get("kind") in FUNC_KINDS]
+            # the first function is the template PATTERN (dependent code: no overload is resolved in it); it is analysed only when the
+            # units instantiate no specialisation of it
+            insts = [m for m in fs[1:] if idx.body(m["id"]) is not None]
+            for m in (insts if insts else fs[:1]):
+                if idx.body(m["id"]) is not None or has_body(m):
                     ACCESS[m["id"]] = acc
                     out.append(m)
     return out
@@ -940,6 +1125,7 @@ def src_members(e, param_id, fn):
     return out
 
 
+DEFINITE_WRITERS = ("resize", "reallocate", "allocate", "reserve", "copy", "logcopy", "clear", "push_back", "pop_back", "erase", "insert", "swap", "assign", "destroy", "reset", "read", "setPrimes")
 SHARING_TAGS = ("givNoCopy",)                       # Array0(p, givNoCopy): reference-counted alias of p's block
 SHARING_CALLS = ("logcopy",)                        # Array0::logcopy(src): the same, as a member
 SHARING_WRAPPERS = ("reference_wrapper", "std::ref", "std::cref")
@@ -1217,31 +1403,71 @@ def rc_events(idx, an, fnnode, par):
     fn = an.info(fnnode)
     ev = []
     guarded = [False]
+    release_unguarded = [False]
+    state = {"guard": 0, "after_return_guard": False}
+
+    def is_self_test(cond):
+        """(`this` compared with the address of the parameter, opcode)"""
+        txt = json.dumps(cond)
+        if "CXXThisExpr" in txt and par is not None and par["id"] in txt:
+            if '"opcode": "!="' in txt:
+                return "!="
+            if '"opcode": "=="' in txt:
+                return "=="
+        return None
+
+    def has_return(n):
+        return n.get("kind") == "ReturnStmt" or any(has_return(c) for c in kids(n))
+
+    def note_release():
+        if not (state["guard"] > 0 or state["after_return_guard"]):
+            release_unguarded[0] = True
+
     def rec(n):
         k = n.get("kind")
         s = kids(n)
         if k == "IfStmt" and s:
-            txt = json.dumps(s[0])
-            if "CXXThisExpr" in txt and par is not None and par["id"] in txt and ('"opcode": "!="' in txt or '"opcode": "=="' in txt):
-                guarded[0] = True
+            op = is_self_test(s[0])
+            if op == "!=" and len(s) >= 2:
+                # if (this != &F) { ... }: the THEN branch runs only for distinct objects
+                rec(s[0])
+                state["guard"] += 1
+                rec(s[1])
+                state["guard"] -= 1
+                for c in s[2:]:
+                    rec(c)
+                return
+            if op == "==" and len(s) >= 2 and has_return(s[1]):
+                # if (this == &F) return *this;  everything AFTER it runs only for distinct objects
+                for c in s:
+                    rec(c)
+                state["after_return_guard"] = True
+                return
         if k == "UnaryOperator" and n.get("opcode") in ("++", "--") and s:
             p = access_path(s[0], fn)
             if p is not None and p.deref and p.members and p.root in ("this", "param"):
                 ev.append(("inc" if n.get("opcode") == "++" else "dec", "this" if p.root == "this" else "src", p.members[0]))
+                if n.get("opcode") == "--" and p.root == "this":
+                    note_release()
         if k == "CXXOperatorCallExpr" and len(s) >= 2 and _callee_name(s[0]) in ("operator++", "operator--"):
             # std::atomic<int> counter: ++(*numRefs) / --(*numRefs) are member operator calls
             p = access_path(s[1], fn)
             if p is not None and p.deref and p.members and p.root in ("this", "param"):
                 ev.append(("inc" if _callee_name(s[0]) == "operator++" else "dec", "this" if p.root == "this" else "src", p.members[0]))
+                if _callee_name(s[0]) == "operator--" and p.root == "this":
+                    note_release()
         if k == "CXXMemberCallExpr" and s and _callee_name(s[0]) in ("fetch_add", "fetch_sub"):
             cid, recv = _callee_id(n)
             p = access_path(recv, fn) if recv is not None else None
             if p is not None and p.members and p.root in ("this", "param"):
                 ev.append(("inc" if _callee_name(s[0]) == "fetch_add" else "dec", "this" if p.root == "this" else "src", p.members[0]))
+                if _callee_name(s[0]) == "fetch_sub" and p.root == "this":
+                    note_release()
         if k == "CXXDeleteExpr" and s:
             p = access_path(s[0], fn)
             if p is not None and p.root == "this" and p.members:
                 ev.append(("delete", "this", p.members[0]))
+                note_release()
         if k == "BinaryOperator" and n.get("opcode") == "=" and len(s) == 2:
             lp = access_path(s[0], fn)
             if lp is not None and lp.root == "this" and len(lp.members) == 1 and not lp.deref and qt(s[0]).rstrip().endswith("*"):
@@ -1251,6 +1477,9 @@ def rc_events(idx, an, fnnode, par):
     for c in kids(fnnode):
         if c.get("kind") == "CompoundStmt":
             rec(c)
+    # guarded = there is a release of the object's own share, and EVERY release (decrement / delete) is inside `if (this != &F)` or after
+    # `if (this == &F) return`: a self test somewhere else in the body does not count
+    guarded[0] = any(e[0] in ("dec", "delete") and e[1] == "this" for e in ev) and not release_unguarded[0]
     return ev, guarded[0]
 
 
@@ -1353,7 +1582,10 @@ def describe_class(idx, an, disp, c):
             elif e["kind"] == "global_write":
                 writes.append({"k": "global", "member": e["var"], "how": "static", "via": e.get("via", [])[-2:]})
             elif e["kind"] == "global_read":
-                writes.append({"k": "global_read", "member": e["var"], "how": "static", "via": e.get("via", [])[-2:]})
+                if an.written_globals is None or e["var"] in an.written_globals:
+                    writes.append({"k": "global_read", "member": e["var"], "how": "static", "via": e.get("via", [])[-2:]})
+                else:
+                    benign_statics.add("%s (namespace / class static that NO function body of the dump writes: a constant in effect)" % e["var"])
         # dedupe
         uniq, seenw = [], set()
         for w in writes:
@@ -1362,6 +1594,7 @@ def describe_class(idx, an, disp, c):
                 seenw.add(key); uniq.append(w)
         ps, _ = split_params(qt(b))
         mdesc.append({"name": b.get("name"), "sig": qt(b)[:160], "params": ",".join(norm(x) for x in ps), "cls": cls.get("name"), "mut_writes": sorted(mut_writes),
+                      "definite_writes": sorted(x for x in an.definite_writes(b) if x in fnames) if not fi.is_const else [],
                       "access": ACCESS.get(b["id"]) or ACCESS.get(next((k for k, v in idx.defn.items() if v is b and k in ACCESS), None), "public"),
                       "const": fi.is_const and not isstatic,
                       "static": isstatic, "reads": r_own, "writes": uniq, "line": b.get("loc", {}).get("line") or b.get("loc", {}).get("expansionLoc", {}).get("line")})
@@ -1417,7 +1650,7 @@ def describe_class(idx, an, disp, c):
                         ws.append({"k": "static_local", "member": e["var"], "how": "init" if (e.get("decl") or e.get("init")) else "static", "via": e.get("via", [])[-2:]})
                 elif e["kind"] == "global_write":
                     ws.append({"k": "global", "member": e["var"], "how": "static", "via": e.get("via", [])[-2:]})
-                elif e["kind"] == "global_read":
+                elif e["kind"] == "global_read" and (an.written_globals is None or e["var"] in an.written_globals):
                     ws.append({"k": "global_read", "member": e["var"], "how": "static", "via": e.get("via", [])[-2:]})
             uq, sk = [], set()
             for w in ws:
@@ -1646,6 +1879,17 @@ def build_descriptions(log=None):
     t1 = time.time()
     idx = Index(objs)
     an = Analyzer(idx)
+    # namespace / class statics that some function body of the dump (both units) writes; a global nobody writes is a constant in effect
+    # (IntPrimeDom::TP is `static const int*`: the pointer is not const-qualified, but nothing reseats it)
+    an.written_globals = set()
+    for i, dn in list(idx.decl.items()):
+        if dn.get("kind") in FUNC_KINDS and has_body(dn):
+            try:
+                for e in an.info(dn).effects:
+                    if e["kind"] == "global_write":
+                        an.written_globals.add(e["var"])
+            except Exception:
+                pass
     descs, missing = [], []
     id2disp = {}
     for disp, name, args in TARGETS:
@@ -1670,6 +1914,9 @@ def build_descriptions(log=None):
         missing.append("GFqKronecker (gfqkronecker.h unreadable)")
     meta = {"cached": False, "ast_objects": len(objs), "clang_seconds": round(t1 - t0, 2), "seconds": round(time.time() - t0, 2),
             "decls_indexed": len(idx.decl), "classes_in_dump": len(idx.classes), "missing": missing, "stats": an.stats, "key": key,
+            "unresolved_by_category": an.unresolved, "linked_to_library_definitions": idx.linked_to_library,
+            "unresolved_callees": {c: sorted(v.items(), key=lambda kv: -kv[1])[:(60 if c.isupper() or c.startswith("DECLARED") else 8)] for c, v in an.unresolved_names.items()},
+            "recint_static_scan": recint_static_scan(),
             "nested_domain_members": sorted("%s.%s : %s" % (k[0], k[1], v) for k, v in field_class.items())}
     # tuples -> lists for JSON
     js = json.loads(json.dumps({"descs": descs, "meta": meta}, default=list))
@@ -1679,6 +1926,42 @@ def build_descriptions(log=None):
     for old in sorted([os.path.join(cdir, f) for f in os.listdir(cdir) if f.endswith(".json")], key=os.path.getmtime)[:-6]:
         os.remove(old)
     return js["descs"], js["meta"], None
+
+
+def recint_static_scan():
+    """RecInt is outside the dump (namespace RecInt): its headers are scanned textually for function-local statics, the only way a value-type
+    operation could carry hidden state.  Class-level statics of the modular types rmint (the module-wide modulus p, p1, r, ...) are the documented
+    design of those types (C07) and are not used by ruint / rint."""
+    d = os.path.join(vf.REPO, "src/kernel/recint")
+    hits, files = [], 0
+    try:
+        names = sorted(os.listdir(d))
+    except OSError:
+        return {"files": 0, "function_local_statics": ["directory unreadable"]}
+    for f in names:
+        if not f.endswith((".h", ".inl")):
+            continue
+        files += 1
+        txt = re.sub(r"//[^\n]*", "", open(os.path.join(d, f), errors="replace").read())
+        txt = re.sub(r"/\*.*?\*/", "", txt, flags=re.S)
+        depth_stack = []      # a `static` declaration of a VARIABLE (no parenthesis before ; or =) at brace depth >= 1 inside a function body
+        for m in re.finditer(r"\bstatic\s+(?!inline|const\b|constexpr)([A-Za-z_][\w:<>, ]*?)[\s&*]+([A-Za-z_]\w*)\s*(=|;|\()", txt):
+            pre = txt[:m.start()]
+            # inside a function body: the last unclosed '{' is preceded by ')' (possibly with const / noexcept)
+            depth, i = 0, len(pre) - 1
+            while i >= 0:
+                ch = pre[i]
+                if ch == "}":
+                    depth += 1
+                elif ch == "{":
+                    if depth == 0:
+                        break
+                    depth -= 1
+                i -= 1
+            head = pre[:i].rstrip() if i >= 0 else ""
+            if re.search(r"\)\s*(const)?\s*(noexcept)?\s*$", head) and m.group(3) != "(":
+                hits.append("%s: static %s %s" % (f, m.group(1).strip(), m.group(2)))
+    return {"files": files, "function_local_statics": hits}
 
 
 def coq_str(s):
@@ -1864,6 +2147,10 @@ class Mirror:
     def sc_offenders(self):
         return [m for m in self.d["methods"] if self.claimed(m) and not self.method_sc(m)]
 
+    def stateless(self, m):
+        """reads no member and has no effect: method_sc is trivially true, the theorem says nothing about it"""
+        return not m["reads"] and not self.eff[id(m)]
+
     def rf_offenders(self):
         return [m for m in self.d["methods"] if self.claimed(m) and not self.method_rf(m)]
 
@@ -1880,9 +2167,13 @@ class Mirror:
     def is_mutator(self, m):
         """public non-const member that re-parameterises the object in place: writes a parameter-derived member that operations read,
         and is named like a setter / reader (conversion members that merely touch containers through non-const accessors are not)"""
-        if m["const"] or m.get("static") or m.get("access", "public") != "public" or not self.MUTATOR_NAMES.match(m["name"] or ""):
+        if m["const"] or m.get("static") or m.get("access", "public") != "public" or (m["name"] or "").startswith("operator"):
             return False
-        if not any(x in self.reparam_core() for x in m.get("mut_writes", [])):
+        # by the AST: the member (whatever its name) definitely assigns a parameter-derived member that operations read; the NAME rule is kept
+        # for setters whose writes go through calls the translator cannot see through (it needs a classified write as well)
+        by_ast = any(x in self.reparam_core() for x in m.get("definite_writes", []))
+        by_name = bool(self.MUTATOR_NAMES.match(m["name"] or "")) and any(x in self.reparam_core() for x in m.get("mut_writes", []))
+        if not (by_ast or by_name):
             return False
         # a member inherited from a base cannot refresh what a derived class adds: reported as a note, not decided here
         decl = {f["name"]: f.get("cls") for f in self.d["members"]}
@@ -1892,7 +2183,7 @@ class Mirror:
 
     def mutator_missing(self, m):
         """what a re-parameterising member leaves behind: parameter-derived members it does not rewrite, caches it does not reset"""
-        w = set(m.get("mut_writes", []))
+        w = set(m.get("mut_writes", [])) | set(m.get("definite_writes", []))
         need = set(self.d.get("param_members") or []) | set(x for x in self.written if x in self.members)
         return sorted(need - w)
 
@@ -2016,8 +2307,17 @@ def emit_decide(descs):
         "(* GENERATED by harness/c16_objmodel.py: the decisions per class.  Each lemma is re-decided by vm_compute on gen/Desc.v. *)",
         "From Coq Require Import String List Bool.", "From C16 Require Import ObjModel.", "From C16.gen Require Import Desc.", "Import ListNotations.", "Local Open Scope string_scope.", "",
         "(* claimed const methods (not randomised) whose result is NOT shown to be a function of parameters and operands *)",
-        "Definition Decide_sc_stmt : Prop := map (fun d => (cd_name d, sc_offenders d)) all_descs =\n   [" + sep.join(sc) + "].",
+        "(* classes that are described but carry no verdict, with the reason *)",
+        "Definition sc_exceptions : list (string * string) := " + coq_list(["(%s, %s)" % (coq_str(k), coq_str(v)) for k, v in NO_VERDICT.items() if any(d["name"] == k for d in descs)]) + ".",
+        "Definition sc_excepted (d : class_desc) : bool := mem (cd_name d) (map fst sc_exceptions).",
+        "Definition Decide_sc_stmt : Prop := map (fun d => (cd_name d, sc_offenders d)) (filter (fun d => negb (sc_excepted d)) all_descs) =\n   [" + sep.join(x for x, d in zip(sc, descs) if d["name"] not in NO_VERDICT) + "].",
         "Lemma decide_sc : Decide_sc_stmt.", "Proof. vm_compute. reflexivity. Qed.", "",
+        "(* ... the classes set aside (no verdict): their offender lists, for the record *)",
+        "Definition Decide_sc_excepted_stmt : Prop := map (fun d => (cd_name d, sc_offenders d)) (filter sc_excepted all_descs) =\n   [" + sep.join(x for x, d in zip(sc, descs) if d["name"] in NO_VERDICT) + "].",
+        "Lemma decide_sc_excepted : Decide_sc_excepted_stmt.", "Proof. vm_compute. reflexivity. Qed.", "",
+        "(* methods that read a member or have an effect (the others are stateless: accepted trivially) and are accepted, per class *)",
+        "Definition Decide_stateful_stmt : Prop := map (fun d => (cd_name d, stateful_accepted d)) all_descs =\n   [" + sep.join("(%s, %d)" % (coq_str(d["name"]), sum(1 for m in d["methods"] if Mirror(d).claimed(m) and Mirror(d).method_sc(m) and not Mirror(d).stateless(m))) for d in descs) + "].",
+        "Lemma decide_stateful : Decide_stateful_stmt.", "Proof. vm_compute. reflexivity. Qed.", "",
         "(* claimed const methods that write state other threads can see *)",
         "Definition Decide_rf_stmt : Prop := map (fun d => (cd_name d, rf_offenders d)) all_descs =\n   [" + sep.join(rf) + "].",
         "Lemma decide_rf : Decide_rf_stmt.", "Proof. vm_compute. reflexivity. Qed.", "",
